@@ -152,6 +152,9 @@ pub struct TapState {
     /// The stage(s) producing this boundary, each with the tap on its limit stream (C13: after every
     /// emitted batch the view is the stage's view of its input for the limits it has pulled).
     pub group: Vec<(StageSpec, Option<Rc<RefCell<LimTapState>>>)>,
+    /// Lengths this boundary had before each of its last three items: a stage that has pulled an
+    /// item may not have processed it yet when it handles a limit change (known-finding triggers).
+    pub recent_lens: Vec<usize>,
     /// Limit taps of the stage(s) reading from this boundary.
     pub consumer_lims: Vec<Rc<RefCell<LimTapState>>>,
     /// Batched taps: the replica after every item (index 0 = initial values).
@@ -167,6 +170,7 @@ impl TapState {
         let hist = if batched { vec![vs(&replica)] } else { Vec::new() };
         TapState {
             hist,
+            recent_lens: Vec::new(),
             consumer_lims: Vec::new(),
             frontier: Vec::new(),
             index,
@@ -209,6 +213,10 @@ impl TapState {
             cs.violate(env, &ps, "item_after_end", stage, "stream yielded an item after reporting its end".into());
             return;
         }
+        self.recent_lens.push(self.replica.len());
+        if self.recent_lens.len() > 3 {
+            self.recent_lens.remove(0);
+        }
         if self.raw.is_some() {
             self.on_raw_item(diffs, env, cs);
             if self.batched {
@@ -224,9 +232,48 @@ impl TapState {
         let has_reset = diffs.iter().any(|d| matches!(d, VectorDiff::Reset { .. }));
         let mut w = env.borrow_mut();
         let raw = self.raw.as_mut().unwrap();
-        if has_reset && !is_reset {
+        // A batch that *begins* with a Reset and goes on with the diffs that follow it is accepted in
+        // a poll during which the writer ran (F8): the library found the lag, read the newest state,
+        // and drained what the writer sent after that — the batch as a whole is judged below.
+        let reset_then_more = has_reset && !is_reset && w.poll_floor.is_some() && matches!(diffs[0], VectorDiff::Reset { .. }) && !diffs[1..].iter().any(|d| matches!(d, VectorDiff::Reset { .. }));
+        if has_reset && !is_reset && !reset_then_more {
             drop(w);
             cs.violate(env, &["C06"], "reset_inside_batch", 0, "a Reset was delivered together with other diffs".into());
+            return;
+        }
+        if reset_then_more {
+            let values = match &diffs[0] {
+                VectorDiff::Reset { values } => vs(values),
+                _ => unreachable!(),
+            };
+            let f = w.poll_floor.unwrap_or(0);
+            if !w.boundaries[f..].iter().any(|b| *b == values) {
+                let detail = format!("Reset (first diff of a batch) carries {:?}, a state the vector did not have during this poll; it contains {:?}", values, w.contents);
+                drop(w);
+                cs.violate(env, &["C06", "C07"], "reset_not_current", 0, detail);
+                return;
+            }
+            raw.saw_reset = true;
+            w.counters.inc("fault.F1_overflow_reset_delivered");
+            w.counters.inc("probe.reset_followed_by_diffs_in_one_batch");
+            drop(w);
+            for d in diffs {
+                if let Err(e) = checked_apply(&mut self.replica, d) {
+                    cs.violate(env, &["C06"], "inapplicable_diff", 0, e);
+                    return;
+                }
+            }
+            let w = env.borrow();
+            let raw = self.raw.as_mut().unwrap();
+            let r = vs(&self.replica);
+            match (f..w.boundaries.len()).find(|&j| w.boundaries[j] == r) {
+                Some(j) => raw.bidx = j,
+                None => {
+                    let detail = format!("after a batch (Reset followed by diffs) the replica is {:?}, a state the vector did not have during this poll", r);
+                    drop(w);
+                    cs.violate(env, &["C06", "C07", "C13"], "batched_intermediate_state", 0, detail);
+                }
+            }
             return;
         }
         if is_reset {
@@ -680,7 +727,12 @@ impl Stream for LimitTap {
                         }
                     };
                     let _ = old;
-                    if len > *new && *new > 0 && st.in_effect.iter().any(|&o| o > len) {
+                    // (the stage may not yet have processed the last items it pulled from its input)
+                    let mut lens = vec![len];
+                    if this.upstream.is_none() {
+                        lens.extend(this.input.borrow().recent_lens.iter().copied());
+                    }
+                    if *new > 0 && lens.iter().any(|&len| len > *new && st.in_effect.iter().any(|&o| o > len)) {
                         this.cs.retire.set(Some("KF-D5"));
                     }
                 }
